@@ -58,11 +58,21 @@ class HWorld(object):
         self.data_name = os.path.join(self.tmp, stem + (ext if variant.get("ext", True) is True else ""))
         self.file = os.path.join(self.tmp, stem + ext)
 
+        # offset: values of the two function versions differ by a relative 1e-6 only (still different data)
+        off = self.off = int(variant.get("offset", 0))
+
         def fn(a, b, c=7):
-            return float(VER[0] * 1000 + 10 * a + b)
+            return float(off + VER[0] * 1000 + 10 * a + b)
+
+        def fn2(a, b, c=7):
+            # the function after it gained a second output
+            return float(off + VER[0] * 1000 + 10 * a + b), float(VER[0] * 1000 + 10 * a + b)
 
         self.fn = fn
         self.runner = self.xyz.Runner(fn, var_names="x", fn_args=("a", "b", "c"))
+        self.runner2 = self.xyz.Runner(fn2, var_names=["x", "y"], fn_args=("a", "b", "c"))
+        self.two = False          # True once the function has the second output
+        self.ymap = {}            # (a, b) -> version expected for y
         self.h = None
         self.percall = bool(variant.get("percall_engine"))
         self.new_session()
@@ -87,9 +97,10 @@ class HWorld(object):
         shutil.rmtree(self.tmp, ignore_errors=True)
 
     # -- projections ---------------------------------------------------------
-    def ds_map(self, ds, points):
+    def ds_map(self, ds, points, var="x"):
         out = {}
         has_c = "c" in ds.dims
+        off = self.off if var == "x" else 0
         for p in points:
             a, b, c = p
             v = 0
@@ -98,7 +109,9 @@ class HWorld(object):
                     sel = dict(a=a, b=b)
                     if has_c:
                         sel["c"] = c
-                    x = float(ds["x"].sel(sel).values)
+                    if var not in ds:
+                        raise KeyError(var)
+                    x = float(ds[var].sel(sel).values) - off
                     if not math.isnan(x):
                         v = int(x) // 1000
                         if int(x) % 1000 != 10 * a + b:
@@ -122,6 +135,21 @@ class HWorld(object):
         if self.h._full_ds is not None:
             mem = self.ds_map(self.h._full_ds, points)
         return dict(listing=listing, exists=exists, disk=disk, mem=mem)
+
+    def observe_y(self, points):
+        """(disk, mem) maps of the second output."""
+        disk = mem = None
+        if os.path.exists(self.file):
+            ds = self.xyz.load_ds(self.file, engine=self.engine)
+            try:
+                disk = self.ds_map(ds, points, "y")
+            finally:
+                ds.close()
+        if self.h._full_ds is not None:
+            mem = self.ds_map(self.h._full_ds, points, "y")
+        return disk, mem
+
+
 
 
 def combos_of(A, B, c):
@@ -185,14 +213,41 @@ def replay_h(case, variant, points):
     """Returns (problem, tag, step, notes)."""
     if variant.get("percall_engine") and any(ev["a"] in ("delete_ds", "expand_dims", "drop_sel") for ev in case["hist"]):
         variant = dict(variant, percall_engine=False)     # those calls take the engine from the object
+    hist = case["hist"]
+    # the function gains a second output half-way (a new session with the new runner): only for histories in which
+    # memory and disk stay in step and the point space stays two-dimensional
+    simple = all((ev["a"] in ("session", "drop_sel"))
+                 or (ev["a"] == "harvest_combos" and ev["args"][2] == 0 and ev["args"][5])
+                 or (ev["a"] == "harvest_cases" and all(q[2] == 0 for q in ev["args"][0]) and ev["args"][3])
+                 for ev in hist)
+    sessions = [k for k, ev in enumerate(hist) if ev["a"] == "session"]
+    if variant.get("second_var") and not (simple and sessions):
+        variant = dict(variant, second_var=False)
+    # (the model's own new-session step is the one in which the new function is used first)
+    switch_at = sessions[0] if variant.get("second_var") else None
     w = HWorld(variant)
     notes = []
     prev = None
     try:
         for k, ev in enumerate(case["hist"]):
             post = ev["o"]
+            if switch_at is not None and k == switch_at:
+                w.two = True
+                w.runner = w.runner2
             exc = do_hstep(w, ev)
             label = "step %d %s%r" % (k, ev["a"], tuple(ev["args"]))
+            if w.two and ev["a"] in ("harvest_combos", "harvest_cases") and post["outcome"] != "conflict":
+                # the second output has its own history: it may conflict where the first does not
+                if ev["a"] == "harvest_combos":
+                    pts_, ver_, pol_ = [(a_, b_) for a_ in ev["args"][0] for b_ in ev["args"][1]], ev["args"][3], ev["args"][4]
+                else:
+                    pts_, ver_, pol_ = [(q[0], q[1]) for q in ev["args"][0]], ev["args"][1], ev["args"][2]
+                if pol_ == "none" and any(p_ in w.ymap and w.ymap[p_] != ver_ for p_ in pts_):
+                    if exc is None:
+                        return (label + ": conflicting data of the second output 'y' merged without an error under the default policy",
+                                "no_conflict", k, notes)
+                    notes.append("second output conflicts where the first does not: history abandoned (outside the model)")
+                    return None, None, k, notes
             if post["outcome"] == "conflict":
                 if exc is None:
                     return (label + ": conflicting data merged without an error under the default policy", "no_conflict", k, notes)
@@ -243,6 +298,32 @@ def replay_h(case, variant, points):
                         return (label + ": point %r had data (%s) before this call and has none after it%s" % (
                             p0, src, " (the point had only been harvested with sync=False)" if mem_only else ""), tag, k, notes)
             prev = o
+            if w.two:
+                # the second output: present (with the value the policy dictates) wherever it was harvested
+                pol = None
+                if ev["a"] == "harvest_combos" and post["outcome"] != "conflict":
+                    pts, ver, pol = [(a_, b_) for a_ in ev["args"][0] for b_ in ev["args"][1]], ev["args"][3], ev["args"][4]
+                elif ev["a"] == "harvest_cases" and post["outcome"] != "conflict":
+                    pts, ver, pol = [(q[0], q[1]) for q in ev["args"][0]], ev["args"][1], ev["args"][2]
+                elif ev["a"] == "drop_sel":
+                    w.ymap = {p: v for p, v in w.ymap.items() if p[0] != ev["args"][0]}
+                if pol is not None:
+                    for p in pts:
+                        if p not in w.ymap or pol != "false":
+                            w.ymap[p] = ver
+                ydisk, ymem = w.observe_y(points)
+                for src, got in (("on disk", ydisk), ("in memory", ymem)):
+                    if got is None:
+                        if w.ymap and not (src == "in memory" and ev["a"] == "session"):
+                            return (label + ": the second output 'y' is nowhere %s although it was harvested at %r" % (
+                                src, sorted(w.ymap)), "second_var", k, notes)
+                        continue
+                    if src == "in memory" and ev["a"] == "session":
+                        continue
+                    for (a_, b_), ver in w.ymap.items():
+                        if got.get((a_, b_, 0), 0) != ver:
+                            return (label + ": %s the second output 'y' at (a=%d, b=%d) holds version %r, expected %r (0 = no data)" % (
+                                src, a_, b_, got.get((a_, b_, 0), 0), ver), "second_var", k, notes)
         return None, None, len(case["hist"]), notes
     finally:
         w.close()
@@ -274,8 +355,9 @@ class SWorld(object):
         self.ncrop = 0
 
     def new_session(self, h=1):
-        self.samplers[h] = self.xyz.Sampler(self.runner, self.data_name, default_combos={"a": [1, 2, 3], "b": [1, 2, 3]},
-                                            engine=self.engine)
+        # with flip_keys every run spells its own combos (defaults would fix the key order)
+        dc = None if self.variant.get("flip_keys") else {"a": [1, 2, 3], "b": [1, 2, 3]}
+        self.samplers[h] = self.xyz.Sampler(self.runner, self.data_name, default_combos=dc, engine=self.engine)
         self.s = self.samplers[h]
 
     def close(self):
@@ -332,6 +414,9 @@ def replay_s(case, variant):
                                 return x
                             return f
                         combos = {"a": feeder("a"), "b": feeder("b")}
+                        if variant.get("flip_keys") and k % 2 == 1:
+                            # the same draws, the arguments spelled in the other order
+                            combos = {"b": combos["b"], "a": combos["a"]}
                         if ev["a"] == "sample":
                             opts = {}
                             if variant.get("shuffle"):
